@@ -42,6 +42,43 @@ type Req struct {
 	M string      `json:"m"`
 	P string      `json:"p"`
 	H [][2]string `json:"h,omitempty"`
+	// Wire says how the path was spelled on the wire: "" = URL.Path only;
+	// "all" / "even" = the request also carries URL.RawPath, a valid but
+	// over-escaped spelling of the same path (every byte / every second byte
+	// other than '/' percent-encoded), as a server sees it when a client sends
+	// e.g. /users/%40me. The path the router is given is P either way.
+	Wire string `json:"wire,omitempty"`
+}
+
+// RawPath spells p in an over-escaped way that decodes to exactly p.
+func RawPath(p, mode string) string {
+	const hex = "0123456789ABCDEF"
+	var b strings.Builder
+	for i := 0; i < len(p); i++ {
+		c := p[i]
+		plain := c >= 'a' && c <= 'z' || c >= 'A' && c <= 'Z' || c >= '0' && c <= '9' || c == '-' || c == '.' || c == '_' || c == '~'
+		switch {
+		case c == '/':
+			b.WriteByte(c)
+		case plain && !(mode == "all" || mode == "even" && i%2 == 0):
+			b.WriteByte(c)
+		default:
+			b.WriteByte('%')
+			b.WriteByte(hex[c>>4])
+			b.WriteByte(hex[c&15])
+		}
+	}
+	return b.String()
+}
+
+// HTTP builds the *http.Request of q.
+func (q Req) HTTP() *http.Request {
+	req := NewRequest(q.M, q.P, q.Header())
+	if q.Wire != "" {
+		req.URL.RawPath = RawPath(q.P, q.Wire)
+		req.RequestURI = req.URL.RawPath
+	}
+	return req
 }
 
 // Header builds the http.Header of a request.
@@ -239,7 +276,7 @@ func (a *App) Serve(q Req) (hit Hit) {
 		}
 	}()
 	rec := httptest.NewRecorder()
-	a.F.ServeHTTP(rec, NewRequest(q.M, q.P, q.Header()))
+	a.F.ServeHTTP(rec, q.HTTP())
 	hit.Status = rec.Code
 	hit.Body = rec.Body.String()
 	a.inferNotFound(&hit, q.M)
